@@ -244,8 +244,17 @@ func (m *Machine) ev(e *E, in []*val.V, c Ctx) []*val.V {
 		return m.object(e, in, c)
 	case "as":
 		if len(in) == 0 {
-			// nothing to bind: the body is evaluated on the empty stream (only `[...]` produces something there)
-			return m.ev(e.A[1], in, c)
+			// no context: the source is still evaluated (a path yields nothing there; for a literal the documentation is silent);
+			// with nothing to bind the body is evaluated on the empty stream (only `[...]` produces something there)
+			src := m.ev(e.A[0], in, c.ro())
+			if len(src) == 0 {
+				return m.ev(e.A[1], in, c)
+			}
+			var out []*val.V
+			for _, v := range src {
+				out = append(out, m.ev(e.A[1], in, c.bind(e.S, []*val.V{v.Copy()}))...)
+			}
+			return out
 		}
 		var out []*val.V
 		for _, one := range m.groups(in) {
